@@ -219,6 +219,14 @@ def k1_ops(opname, attr, P, inplace, conform=True, if_=True):
             fs, eff = {"n": f_ok, "s": fn_wrong}, None
         fails = (CallbackFail,) if "raise" in kind else (TypeError, ValueError)
         return Op("transform(n,x)", lambda o: o.transform(**fs, **kw), list(fs.values()), eff, fails, inplace, noop, note=kind)
+    if opname == "transform_identity_kw":  # whole-value transform returning its input + attribute transforms
+        c = P["i2"]
+        return Op("transform(identity, n=f)", lambda o: o.transform(lambda t: t, n=fn_add(c), **kw), [], lambda st: set_state(st, "n", st["n"] + c), None, inplace, noop)
+    if opname == "transform_other_kw":  # whole-value transform returning ANOTHER pre-existing instance + attribute transforms
+        c = P["i2"]
+        other = P["other"]
+        op = Op("transform(->other, n=f)", lambda o: o.transform(lambda t: other, n=fn_add(c), **kw), [other], lambda st: set_state(state_of(other), "n", state_of(other)["n"] + c), None, inplace, noop)
+        return op
     if opname == "update_unknown":
         name = pick(["zz", "_private", "inner", "with_x"], P["sel3"] % 4 if False else P["bad"])
         return Op("update(unknown)", lambda o: o.update(**{name: 1}, **kw), [], None, (TypeError,), inplace, noop)
@@ -238,7 +246,7 @@ def k1_ops(opname, attr, P, inplace, conform=True, if_=True):
     raise AssertionError(opname)
 
 
-K1_OPS = ["with", "setattr", "transform", "reset", "delattr", "reset_all", "update2", "transform2", "update_unknown", "sentinel"]
+K1_OPS = ["transform_identity_kw", "transform_other_kw", "with", "setattr", "transform", "reset", "delattr", "reset_all", "update2", "transform2", "update_unknown", "sentinel"]
 
 
 def build_k1(NS, P, xset=True):
@@ -252,6 +260,7 @@ def build_k1(NS, P, xset=True):
 # ---------------------------------------------------------------------------------------------------------------------
 # K3: nested spec values (scalar helpers on `inner` (no default) / `inner2` (default factory) and top-level update)
 
+K3_FAIL_OPS = ["update_kw2_bad", "with_obj_kw2_bad"]
 K3_OPS = ["with_kw", "with_obj", "with_obj_kw", "update_kw", "transform_kw", "transform_fn", "reset", "update_top", "transform_top", "setattr_obj", "with_dict"]
 
 
@@ -295,6 +304,13 @@ def k3_ops(NS, opname, attr, P, inplace, if_=True):
             return set_state(st, attr, inner_state(v, cur["tags"] if cur else []))
 
         return Op(f"update_{attr}(a=v)", lambda o: getattr(o, f"update_{attr}")(a=v, **kw), [v], eff, None, inplace, noop)
+    if opname == "update_kw2_bad":  # nested update with two keywords, the second ill-typed
+        op = Op(f"update_{attr}(a=v,tags=<bad>)", lambda o: getattr(o, f"update_{attr}")(a=v, tags=5, **kw), [v], None, (TypeError, ValueError), inplace)
+        return op
+    if opname == "with_obj_kw2_bad":
+        obj = NS.Inner(a=v, tags=["q"])
+        op = Op(f"with_{attr}(obj,a=c,tags=<bad>)", lambda o: getattr(o, f"with_{attr}")(obj, a=P["i2"], tags=5, **kw), [obj], None, (TypeError, ValueError), inplace)
+        return op
     if opname == "transform_kw":
         c = P["i2"]
         fn = fn_add(c)
@@ -336,8 +352,9 @@ def k3_ops(NS, opname, attr, P, inplace, if_=True):
 
 
 def build_k5(NS, P):
-    o = NS.K5(x=P["x0"], w=P["n0"])
+    o = NS.K5(x=P["x0"], w=P["n0"], big=[1])
     if P.get("b1"):
+        o.pl
         o.p  # fill the cache of the derived property (a "cached derived value reachable from the receiver")
     if P.get("keyok"):
         o.z = P["i0"] if "i0" in P else 3  # assigned value of an attribute declared invalidated_by x
@@ -382,6 +399,9 @@ def k5_ops(NS, opname, P, inplace):
         return Op("reset_x(dep)", lambda o: o.reset_x(**kw), [], lambda st: set_state(set_state(st, "x", 0), "z", 7), None, inplace)
 
 
+    if opname == "with_big_item":  # element helper on a do_not_copy collection attribute, without _inplace
+        v = P["i1"]
+        return Op("with_big_item", lambda o: o.with_big_item(v, **kw), [v], lambda st: set_state(st, "big", st["big"] + [v]), None, inplace)
     if opname == "del_src_unset":  # deleting an attribute that has neither value nor default fails (AttributeError)
 
         def call(o):
@@ -397,7 +417,7 @@ def k5_ops(NS, opname, P, inplace):
 
 
 K5_FAIL_OPS = ["del_src_unset", "reset_src_unset"]
-K5_OPS = ["with_pw_str", "with_pw_int", "setattr_pw_str", "update_pw_str", "with_scores", "with_x_dep", "transform_x_dep", "update_x_dep", "reset_x_dep"]
+K5_OPS = ["with_big_item", "with_pw_str", "with_pw_int", "setattr_pw_str", "update_pw_str", "with_scores", "with_x_dep", "transform_x_dep", "update_x_dep", "reset_x_dep"]
 
 
 # ---------------------------------------------------------------------------------------------------------------------
@@ -549,6 +569,7 @@ def k2_set_ops(opname, P, inplace, conform=True):
 # ---------------------------------------------------------------------------------------------------------------------
 # K4: keyed containers assigned as a whole (pre-built KeyedList / KeyedSet / list values holding ill-typed elements)
 
+K4_PREP_OPS = ["with_items_prep", "setattr_items_prep", "reset_kl2", "del_kl2", "reset_all_k4"]
 K4_DUP_OPS = ["with_item_index_dup", "update_item_dup", "setitem_dup"]
 K4_OPS = ["ctor_items", "setattr_items", "with_items", "update_items", "ctor_bag", "with_bag", "with_lst", "with_item_obj", "with_bag_item_obj"]
 
@@ -590,6 +611,28 @@ def k4_ops(NS, opname, P, inplace, conform=True):
         return _mk("with_bag", lambda o: o.with_bag(val, **kw), [val], inplace, not conform, note=kind)
     if opname == "with_lst":
         return _mk("with_lst", lambda o: o.with_lst(val, **kw), [val], inplace, not conform, note=kind)
+    if opname in ("with_items_prep", "setattr_items_prep"):  # the item preparer returns NEW objects for items with v < 0
+        neg = NS.Item("n", v=-3)
+        val = KeyedList([NS.Item("p", v=P["i1"]), neg])
+        if opname == "with_items_prep":
+            return _mk("with_items(keyed, preparer)", lambda o: o.with_items(val, **kw), [val, neg], inplace, False)
+
+        def call(o):
+            o.items = val
+            return o
+
+        return _mk("setattr_items(keyed, preparer)", call, [val, neg], True, False)
+    if opname == "reset_kl2":
+        return _mk("reset_kl2", lambda o: o.reset_kl2(**kw), [], inplace, False)
+    if opname == "del_kl2":
+
+        def call(o):
+            del o.kl2
+            return o
+
+        return _mk("del kl2", call, [], True, False)
+    if opname == "reset_all_k4":
+        return _mk("reset", lambda o: o.reset(**kw), [], inplace, False)
     if opname == "with_item_index_dup":  # replace slot 0 by an item whose key belongs to ANOTHER slot: ValueError
         dup = NS.Item("b2", v=P["i1"])
         return _mk("with_item(dup,_index=0)", lambda o: o.with_item(dup, _index=0, **kw), [dup], inplace, True)
